@@ -129,12 +129,33 @@ theorem existsTx_index {c : Ctx} {s : Store} {chain : List Block} (hI : Inv c s 
           exact ⟨hlt, hidt⟩
         · cases h
 
+/-- what `existsUnminedTx` reads of `w.txStore.ExistUnminedTx(hash)`: [prevTx ≠ nil, error id, len(prevTx.TxOut)],
+    from the pending table of the store -/
+def existUnminedAnswer (r : Option Tx) : List Nat :=
+  match r with
+  | some t => [1, 0, t.outs.length]
+  | none => [0, E.notFound, 0]
+
 /-- the oracle answers `w.txStore.ExistsTx` by running the model function on SOME store that satisfies the
-    ledger invariant for some valid chain, for the outpoint index the skeleton holds in `vout` -/
-def LedgerBacked (O : Oracle) : Prop :=
-  ∀ σ, ∃ (c : Ctx) (s : Store) (chain : List Block) (cur : Wid) (tx : TxId),
+    ledger invariant for some valid chain, for the outpoint index the skeleton holds in `vout`; and
+    `w.txStore.ExistUnminedTx` by the pending table of some store -/
+structure LedgerBacked (O : Oracle) : Prop where
+  existsTx : ∀ σ, ∃ (c : Ctx) (s : Store) (chain : List Block) (cur : Wid) (tx : TxId),
     Inv c s chain ∧ ChainValid c.own chain ∧ TxIdsAgree chain c.node ∧
-    O "w.txStore.ExistsTx" σ = existsTxAnswer E.notFound (existsTx s c.node cur tx (σ (V "vout")))
+    O "w.txStore.ExistsTx" σ = existsTxAnswer E.notFound (MW.Model.ApiLedger.existsTx s c.node cur tx (σ (V "vout")))
+  unmined : ∀ σ, ∃ (s : Store) (tx : TxId), O "w.txStore.ExistUnminedTx" σ = existUnminedAnswer (AMap.get s.pending tx)
+
+def existUnminedNode : CallNode :=
+  ("w.txStore.ExistUnminedTx", [V "prevTx", V "perr", V "prevTx.TxOut"], onOk "perr" [.nz "prevTx"])
+
+/-- CONTRACT (ledger, shape): ExistUnminedTx returns the pending transaction or an error -/
+theorem contract_ledger_ExistUnminedTx {O : Oracle} (h : LedgerBacked O) : Holds O existUnminedNode :=
+  holds_onOk_first O _ _ _ _ (by decide) (fun σ => by
+    obtain ⟨s, tx, e⟩ := h.unmined σ
+    rw [e]
+    cases AMap.get s.pending tx with
+    | none => intro h0; simp [existUnminedAnswer, E.notFound] at h0
+    | some t => intro _; simp [existUnminedAnswer])
 
 /-- the call node of `w.txStore.ExistsTx` in the model (`f_existsMsgTx`) -/
 def existsTxNode : CallNode :=
@@ -145,7 +166,7 @@ def existsTxNode : CallNode :=
 /-- CONTRACT (ledger): the five clauses of `w.txStore.ExistsTx` hold for a ledger-backed oracle -/
 theorem contract_ledger_ExistsTx {O : Oracle} (h : LedgerBacked O) : Holds O existsTxNode := by
   intro σ
-  obtain ⟨c, s, chain, cur, tx, hI, hV, hid, hO⟩ := h σ
+  obtain ⟨c, s, chain, cur, tx, hI, hV, hid, hO⟩ := h.existsTx σ
   have hnd : ([V "prevTx", V "block", V "perr", V "perr.notfound", V "prevTx.TxOut"] : List Var).Nodup := by decide
   have g := setMany_get _ σ (O "w.txStore.ExistsTx" σ) hnd
   have g0 := g 0 (by decide)
